@@ -58,6 +58,14 @@ def respell(rng, kind, conv, enums):
         return None
     if kn in ("datetime", "time"):
         is_time = kn == "time"
+        if rng.random() < 0.35:
+            # boundary spellings: normalisation to UTC crosses midnight (backwards and forwards), extreme offsets
+            tods = ["000000[+14]", "003000.000[+5.30:IST]", "000000.000[+0.30]", "235959.999[-12]", "233000[-0.30]",
+                    "000000[+1]", "010000.500[+13.45]", "120000[-9.30:X]", "235959[-1]", "000000.001[+12:NZST]"]
+            dates = ["20240229", "19991231", "20000101", "19000301", "21991231"]
+            s = rng.choice(tods) if is_time else rng.choice(dates) + rng.choice(tods)
+            if D.ref_classify(is_time, s).kind == "in":
+                return s
         for _ in range(6):
             date = None if is_time else D.gen_date(rng)
             form = rng.randrange(4)
@@ -163,6 +171,21 @@ def run(ctx):
         if any(ex is None for (_, _, ex) in expected.values()):
             ctx.stat("doc_with_out_of_space_text")
             continue
+        # ---- the same document as text, in a random rendering (end tags present or omitted, CDATA sections, white
+        # space or none between tags — also the whole body on one line), through the library's parser: the model it
+        # converts to must be the one the element tree converts to
+        if r[0] == "ok" and rng.random() < (1.0 if ctx.thorough else 0.5):
+            rendered = _render(rng, tree)
+            if rendered is not None:
+                r2 = quiet(_parse_convert, rendered)
+                ctx.evaluations += 1
+                ctx.stat("rendered:" + r2[0])
+                same = r2[0] == "ok" and canon_inst(r2[1]) == canon_inst(r[1])
+                if not same:
+                    ctx.violate("rendered_document_converts_differently", dict(case, text=rendered[:3000]),
+                                f"{name}: the document written out as text (a rendering with CDATA sections / omitted end "
+                                f"tags / no line breaks) converts to " + ("a different model" if r2[0] == "ok" else "an error") +
+                                " than its element tree", {"cls": blame_class(inst0)})
         if r[0] != "ok":
             ctx.violate("valid_document_rejected", case, f"{name}: a document whose element texts are all in their lexical space was rejected", {"cls": blame_class(inst0)})
             continue
@@ -203,6 +226,43 @@ def run(ctx):
         if extra:
             ctx.violate("value_not_in_document", dict(case, paths=[str(p) for p in sorted(extra, key=str)][:5]),
                         f"{name}: the model holds values at {sorted(extra, key=str)[:3]} that no data element of the document supplies")
+
+
+def _render(rng, tree):
+    """element tree -> body text in a random strict rendering (gen/wire.py), or None when a text cannot be written
+    (empty / untrimmed data; '<' in data that cannot go into a CDATA section).  The parser hands element data over
+    verbatim (entity spellings are decoded later, by the String converter), so the data is the tree's text itself."""
+    from gen import wire as W
+    wss = [""] if rng.random() < 0.5 else W.WS_SMALL
+    w = lambda: rng.choice(wss)
+
+    def go(e):
+        kids = list(e)
+        if not W.tag_ok(e.tag):
+            raise ValueError(e.tag)
+        if not kids and (e.text or "").strip():
+            d = e.text
+            if d != d.strip():
+                raise ValueError(d)
+            plain_ok = "<" not in d
+            if W.cdata_ok(d) and (not plain_ok or rng.random() < 0.5):
+                return ("c", e.tag, d, "", rng.random() < 0.5, w())
+            if not plain_ok:
+                raise ValueError(d)
+            return ("l", e.tag, d, w(), w(), rng.random() < 0.5, w())
+        return ("a", e.tag, w(), [go(k) for k in kids], w())
+    try:
+        return W.rt_doc(go(tree))
+    except ValueError:
+        return None
+
+
+def _parse_convert(text_):
+    from ofxtools.Parser import TreeBuilder
+    from ofxtools.models.base import Aggregate
+    b = TreeBuilder()
+    b.feed(text_)
+    return Aggregate.from_etree(b.close())
 
 
 def replay(ctx, data):
